@@ -27,6 +27,7 @@ import multiprocessing as mp
 from harness import lib
 from harness.fsfault import abstract as ab
 from harness.fsfault import runner, graphs
+from harness.props import c04_leftover
 
 MODEL_PROPS = ["C04"]
 LEVEL = "proof"
@@ -119,6 +120,10 @@ def _init_worker():
 
 def _w_clean(cfg):
     return runner.clean_trace(cfg, TMP)
+
+
+def _w_left(case):
+    return c04_leftover.run_case(case, TMP)
 
 
 def _w_case(case):
@@ -719,6 +724,18 @@ def run(ctx):
             phases = {"pool_start": round(time.time() - t_start, 1)}
             cleans = list(pool.map(_w_clean, configs))
             phases["clean_runs"] = round(time.time() - t_start, 1)
+            # the retry after the death of a forked saver (a history outside the sweep and outside the model):
+            # judged by the property predicate on the implementation
+            left_cases = c04_leftover.cases(ctx.thorough or ctx.escalated())
+            left_dist, left_reported = {}, 0
+            for lc, (lkey, lnontriv, lfail) in zip(left_cases, pool.map(_w_left, left_cases)):
+                left_dist[lkey] = left_dist.get(lkey, 0) + 1
+                ctx.count(c04_leftover.UNIT, 1, 1 if lnontriv else 0)
+                if lfail and left_reported < 3:
+                    left_reported += 1
+                    ctx.violation(c04_leftover.UNIT, lfail[0], lfail[1])
+            ctx.coverage["distribution"][c04_leftover.UNIT] = left_dist
+            phases["forked_leftover_retry"] = round(time.time() - t_start, 1)
             ev = Eval()
             all_cases = []
             for ci, (cfg, clean) in enumerate(zip(configs, cleans)):
@@ -829,7 +846,7 @@ def run(ctx):
                       {"input": "corr:C04/extraction/crosscheck", "log": f}, no_failing_input=True)
     ctx.assumptions += [
         "file system: rename, mkdir, rmtree atomic; a write may leave any prefix; process death loses nothing already renamed; no power-loss reordering (no fsync modelled)",
-        "one writer per data key; other backends (mongo, zip) and forked (multi-process) savers are outside the model",
+        "one writer per data key; other backends (mongo, zip) and forked (multi-process) savers are outside the model (the retry after an abandoned forked saver is exercised on the implementation only: unit forked_leftover_retry)",
         "payload identity = sha1 of the bytes handed to write(); numpy/compressor round trip is C03's concern",
     ]
 
